@@ -198,6 +198,8 @@ class ProgramRunner(object):
             obj = self.find(cname, pk)
             if obj is None:
                 return 'skip'
+            if obj not in s:
+                return 'skip'
             k = self.key_of(obj)
             was_pending = sa.inspect(obj).pending
             s.expunge(obj)
